@@ -1,4 +1,4 @@
-import Zrnt.Beacon.Spec.Pure
+import Zrnt.Beacon.Impl.Altair
 /-!
 # Code-shaped model `M`: phase0 attester statuses and attestation rewards
 
@@ -153,13 +153,6 @@ def deltasAdd (a b : Deltas) : Deltas :=
   ((List.range a.1.length).map fun i => a.1.getD i 0 + b.1.getD i 0,
    (List.range a.2.length).map fun i => a.2.getD i 0 + b.2.getD i 0)
 
-/-- `common.ApplyDeltas`: one pass over the balances (same as in `Impl/Altair.lean`) -/
-def applyDeltas0 (balances : List Nat) (deltas : Deltas) : List Nat :=
-  (List.range balances.length).map fun i =>
-    let bal := balances.getD i 0 + deltas.1.getD i 0
-    let penalty := deltas.2.getD i 0
-    if bal ≥ penalty then bal - penalty else 0
-
 /-- `phase0.ProcessEpochRewardsAndPenalties` after the genesis guard -/
 def processEpochRewardsAndPenaltiesPhase0 (cfg : Config) (flats : List Validator) (d : Phase0AttesterData)
     (totalBalance finalityDelay inactivityPenaltyQuotient : Nat) (balances : List Nat) : List Nat :=
@@ -171,6 +164,6 @@ def processEpochRewardsAndPenaltiesPhase0 (cfg : Config) (flats : List Validator
   let sum := deltasAdd sum r.head
   let sum := deltasAdd sum r.inclusionDelay
   let sum := deltasAdd sum r.inactivity
-  applyDeltas0 balances sum
+  applyDeltas balances sum
 
 end Zrnt.Beacon.Impl
